@@ -9,6 +9,7 @@ margin of the output; G5 configuration keys read when emitting the primitive are
 each primitive parameter takes the key whose name tokens it contains (vendor alias table).
 Not decided: completeness of the search, the recomputed frequencies themselves."""
 import ast
+import os
 import re
 from ..core import AnalysisError, norm, walk_no_nested
 from .. import pathx as P
@@ -689,6 +690,35 @@ def _g14(ctx):
     return n
 
 
+def _g16(ctx):
+    """Request record layout: every reader of self.clkouts unpacks (signal, frequency, phase, margin[, ..]) by position (G4 reads the
+    requested frequency at [1] and the margin at [3]); the writer -- create_clkout, whose keyword parameters freq / phase / margin are
+    the public API -- must store them at those positions, or the margin test compares against the phase and the phase shifter is
+    programmed with the margin."""
+    n = 0
+    for fname in sorted(os.listdir(os.path.join(ctx.repo, D))):
+        if not fname.endswith(".py"):
+            continue
+        m = ctx.mod(D + fname)
+        for c in [c for c in m.tree.body if isinstance(c, ast.ClassDef)]:
+            for fn in [f for f in c.body if isinstance(f, ast.FunctionDef) and f.name == "create_clkout"]:
+                params = {a.arg for a in fn.args.args + fn.args.kwonlyargs}
+                for st in ast.walk(fn):
+                    if not (isinstance(st, ast.Assign) and isinstance(st.value, ast.Tuple) and len(st.value.elts) >= 4 and
+                            any(isinstance(t, ast.Subscript) and norm(t.value) == "self.clkouts" for t in st.targets)):
+                        continue
+                    el = st.value.elts
+                    names = [{x.id for x in ast.walk(e) if isinstance(x, ast.Name)} & {"freq", "phase", "margin"} for e in el]
+                    ok = names[0] == set() and names[1] == {"freq"} and names[3] == ({"margin"} if "margin" in params else set()) and \
+                        names[2] <= {"phase"} and (names[2] == {"phase"} or isinstance(el[2], ast.Constant))
+                    n += 1
+                    ctx.ob("G16", D + fname, f"{c.name}.create_clkout", "record = (signal, freq, phase, margin, ..) in the positions the readers unpack", ok,
+                           "" if ok else f"`{norm(st)[:100]}`: position 1 / 2 / 3 carry {[sorted(x) for x in names[1:4]]}, the search and do_finalize "
+                                         f"read requested frequency, phase and margin there: the margin test and the phase setting use the wrong "
+                                         f"quantity", st)
+    return n
+
+
 def _g15(ctx):
     """GateMatePLL.do_finalize interpreted (lxs/pyconst.py, primitives as opaque objects) on model requests: the CC_PLL primitive is
     configured by two decimal strings and two doubler flags only, so those must reproduce the registered input frequency and every
@@ -758,6 +788,9 @@ def run(ctx):
                     "instance reproduce the registered input and every requested output frequency exactly; each output pin carries its "
                     "own phase's signal", min_sites=4)
     _g15(ctx)
+    ctx.rule("G16", "request record layout: create_clkout stores (signal, freq, phase, margin[, ..]) at the positions every reader of "
+                    "self.clkouts unpacks (frequency at 1, phase at 2, margin at 3)", min_sites=7)
+    _g16(ctx)
     ctx.rule("G14", "declared windows are closed intervals: a computed frequency equal to a declared minimum / maximum passes every window "
                     "test of the search routines (non-strict acceptance, strict rejection)", min_sites=14)
     _g14(ctx)
